@@ -1,6 +1,7 @@
 mod admin;
 mod groups;
 mod inst;
+mod journal;
 mod perm;
 mod raw;
 mod report;
@@ -8,6 +9,7 @@ mod rng;
 mod world;
 mod world_ext;
 mod checks;
+mod conc;
 
 use report::ShardReport;
 use std::time::Instant;
@@ -36,7 +38,7 @@ fn main() {
     let mut rep = ShardReport { check: check.clone(), shard, seed, tier: tier.clone(), ..Default::default() };
     let ctx = checks::Ctx { check: check.clone(), tier, seed, shard, shards, budget_s, replay, start };
     let rt = tokio::runtime::Builder::new_multi_thread()
-        .worker_threads(2)
+        .worker_threads(4)
         .thread_name("verif-drv")
         .enable_all()
         .build()
